@@ -343,6 +343,30 @@ def execute(schedule) -> Result:
     return res
 
 
+class _Track:
+    """forwards to the real python filter; remembers the largest covariance/state magnitude seen along a tick"""
+
+    def __init__(self, pe):
+        self.pe, self.config, self.control_size = pe, pe.config, pe.control_size
+        self.pmax = self.xmax = 0.0
+
+    def note(self, out):
+        self.xmax = max(self.xmax, float(np.max(np.abs(out[0].data))) if out[0].data.size else 0.0)
+        self.pmax = max(self.pmax, float(np.max(np.abs(out[1].data))) if out[1].data.size else 0.0)
+        return out
+
+    def make_reading(self, key, **kw):
+        return self.pe.make_reading(key, **kw)
+
+    def process_model(self, dt, state, covariance, control=None):
+        self.note((state, covariance))
+        return self.note(self.pe.process_model(dt, state, covariance, control) if control is not None else self.pe.process_model(dt, state, covariance))
+
+    def sensor_model(self, state, covariance, *, sensor_key, sensor_reading):
+        self.note((state, covariance))
+        return self.note(self.pe.sensor_model(state, covariance, sensor_key=sensor_key, sensor_reading=sensor_reading))
+
+
 def _lockstep(schedule, leg, res):
     from formak import python
     from formak.runtime import ManagedFilter, StampedReading
@@ -392,7 +416,8 @@ def _lockstep(schedule, leg, res):
                     u = ref.update(key, x_in, P_in, {r: xf(op["values"][r]) for r in rn}, k)
                     lines.append(f"UPDATE {sensors.index(key)} {_sv_line(S, x_in, P_in)} " + " ".join(fx(xf(op["values"][r])) for r in rn))
                     unchanged = out[0].data.tobytes() == st.data.tobytes() and out[1].data.tobytes() == cov.data.tobytes()
-                    expect.append(("update", i, out, {"inn": np.array(pe.innovations[key]), "unchanged": unchanged, "u": u, "m": len(rn)}))
+                    expect.append(("update", i, out, {"inn": np.array(pe.innovations[key]), "unchanged": unchanged, "u": u, "m": len(rn), "pmax": float(np.max(np.abs(P_in))) if P_in.size else 0.0,
+                                                      "xmax": (max(abs(v) for v in x_in.values()) + (float(np.max(np.abs(u["K"] @ u["inn"]))) if (u is not None and u["K"].size) else 0.0))}))
                     st, cov = out
                     mf = None
                     for f in op["faults"]:
@@ -400,7 +425,8 @@ def _lockstep(schedule, leg, res):
                 else:
                     if mf is None:
                         # both sides (re)start a managed filter from the python leg's current estimate
-                        mf = ManagedFilter(pe, held_t, st, cov)
+                        track = _Track(pe)
+                        mf = ManagedFilter(track, held_t, st, cov)
                         lines.append(f"NEWMF {fx(held_t)} {_sv_line(S, xof(st), cov.data)}")
                         expect.append(("newmf", i, None, None))
                     readings = [StampedReading(xf(r["t"]), r["sensor"], **{q: xf(v) for q, v in r["values"].items()}) for r in op["readings"]]
@@ -415,7 +441,8 @@ def _lockstep(schedule, leg, res):
                     for f in op["faults"]:
                         res.stats["fault:" + f] += 1
                     lines.append(" ".join(parts))
-                    expect.append(("tick", i, out, {"n": len(readings)}))
+                    expect.append(("tick", i, out, {"n": len(readings), "pmax": track.pmax, "xmax": track.xmax}))
+                    track.pmax = track.xmax = 0.0
                     st, cov = mf.state, mf.covariance  # what the python runtime holds (direct ops continue from there)
                     if readings:
                         held_t = xf(op["readings"][-1]["t"])
@@ -485,7 +512,7 @@ def _compare(schedule, expect, out_lines, res, n, S):
                     continue
             elif u is not None and k is None and cpp_unchanged and ((float(np.max(np.abs(u["KHP"]))) if u["KHP"].size else 0.0) > 1e-12):
                 res.add("C06", "disabled_discards_cpp", "C06:cpp:disabled_discards", i, "with filtering disabled no reading is discarded", "c++ estimate unchanged", "cpp")
-            _cmp_sv(res, "C07", "update", i, out, xs, Ps)
+            _cmp_sv(res, "C07", "update", i, out, xs, Ps, extra["pmax"], extra["xmax"])
         else:
             r = nxt("R")
             h = nxt("H")
@@ -495,7 +522,7 @@ def _compare(schedule, expect, out_lines, res, n, S):
             xs, Ps = _parse_sv(r, n)
             res.stats["tick"] += 1
             res.stats[f"probe:tick_readings={min(extra['n'], 3)}"] += 1
-            _cmp_sv(res, "C07", "tick", i, (out.state, out.covariance), xs, Ps)
+            _cmp_sv(res, "C07", "tick", i, (out.state, out.covariance), xs, Ps, extra["pmax"], extra["xmax"])
             if h[0] != "1":
                 xb, Pb = _parse_sv(bh, n)
                 res.add("C12", "tick_vs_by_hand", f"C12:cpp:tick_vs_by_hand:{combo}", i, f"tick == by-hand replay of the logged calls, bit for bit: {xb.T.tolist()}", f"tick returned {xs.T.tolist()}", "cpp")
@@ -539,9 +566,11 @@ def _compare(schedule, expect, out_lines, res, n, S):
             res.add("C06", "decision_helper", f"C06:cpp:decision:removeInnovation:m={m}", 0, f"{'discard' if want else 'keep'}: z^T S^-1 z = {float(nv)!r} vs k*sqrt(2m)+m = {float(thr)!r}", f"removeInnovation<{m}> returned {dline[0]}", "cpp")
 
 
-def _cmp_sv(res, prop, kind, i, out, xs, Ps):
+def _cmp_sv(res, prop, kind, i, out, xs, Ps, pmax=0.0, xmax=0.0):
+    """rounding of P - K H P and x + K(z-h) is relative to the largest magnitude along the way (cancellation), not to the result"""
     so, co = out
-    ex, eP = reference.rel(xs, so.data), reference.rel(Ps, co.data)
+    ex = (float(np.max(np.abs(xs - so.data))) / (1.0 + max(float(np.max(np.abs(so.data))), xmax))) if so.data.size else 0.0
+    eP = (float(np.max(np.abs(Ps - co.data))) / (1.0 + max(float(np.max(np.abs(co.data))), pmax))) if co.data.size else 0.0
     res.stats["worst_x_e-15"] = max(res.stats.get("worst_x_e-15", 0), int(ex * 1e15))
     res.stats["worst_P_e-15"] = max(res.stats.get("worst_P_e-15", 0), int(eP * 1e15))
     if ex > TOL:
